@@ -74,6 +74,16 @@ class Plugin(HistPlugin):
                 'update_one': attempt(lambda: fresh().update_one(copy.deepcopy(f), {'$set': {'zz9': 1}}).matched_count > 0),
                 'delete_one': attempt(lambda: fresh().delete_one(copy.deepcopy(f)).deleted_count > 0),
             }
+            # single-document writes match at most one document, whatever they do to it: an update
+            # that changes nothing (every document already carries the probe field) included
+            def fresh_marked():
+                c = fresh()
+                c.update_many({}, {'$set': {'zz9': 1}})
+                return c
+            one['update_one_noop_count'] = attempt(
+                lambda: fresh_marked().update_one(copy.deepcopy(f), {'$set': {'zz9': 1}}).matched_count <= 1)
+            one['update_one_count'] = attempt(
+                lambda: fresh().update_one(copy.deepcopy(f), {'$set': {'zz9': 1}}).matched_count <= 1)
             kinds = {v[0] for v in res.values()} | {v[0] for v in one.values()}
             if 'raise' in kinds:
                 # a filter the matcher rejects on some document: the entry points evaluate it
@@ -81,7 +91,8 @@ class Plugin(HistPlugin):
                 raised += 1
                 continue
             vals = {v[1] for v in res.values() if v[0] == 'ok'}
-            ok = kinds == {'ok'} and len(vals) == 1 and \
+            counts_ok = one.pop('update_one_noop_count')[1] is True and one.pop('update_one_count')[1] is True
+            ok = kinds == {'ok'} and len(vals) == 1 and counts_ok and \
                 {v[1] for v in one.values()} == {next(iter(vals)) > 0}
             # known: an empty collection validates the filter in find/count but $match does not
             if not ok and not docs and res['aggregate_match'] == ('ok', 0) and \
